@@ -309,6 +309,9 @@ def do_replay(prop, path):
 def write_evidence(prop, tier, base, agg, nviol, known_hits, extra=None):
     wall = agg["wall"]
     ev = agg["evaluations"]
+    if not agg["samples"]:
+        from . import engine
+        agg["samples"].append(prop.sample(engine.make_spec(prop, engine.run_seed(base, 0), tier)))
     cov = dict(
         evaluations=ev,
         distinct_nontrivial=len(agg["sigs"]),
